@@ -6,7 +6,7 @@
 //! with the exact (rational arithmetic) evaluation of the variation model: region scalars, sum of scalar * delta,
 //! inferred deltas per contour, phantom points => advance / left side bearing, HVAR, MVAR.
 //!
-//! Seven families, each a plain product of small index ranges (`dims`); `gen(family, idx)` maps one index vector to one
+//! Eight families, each a plain product of small index ranges (`dims`); `gen(family, idx)` maps one index vector to one
 //! model font and its coordinate menu, so a witness is replayed from (family, idx, user tuple) without the explorer:
 //!   iup       glyph geometry x referenced point subsets x delta patterns           (inferred deltas)
 //!   regions1  1 axis: sets of 1..3 regions x encoding profiles x axis kinds x avar (scalars, shared/embedded peaks, shared/private points)
@@ -15,6 +15,8 @@
 //!   metrics   phantom point deltas x HVAR (direct, index maps) x MVAR x numberOfHMetrics
 //!   invalid1  regions that the scalar algorithm declares invalid (start > peak, peak > end, start < 0 < end with peak != 0)
 //!   extreme   advance widths that are valid uint16 values but exceed the int16 range of a phantom point coordinate
+//!   nested    composites of composites (depth 2 and 3), parents before and after their children in glyph order, with and
+//!             without HVAR: flattened extent => glyf header bounding box and left side bearing
 //! thorough adds, for 1-axis fonts, all 32769 normalised coordinate values.
 //!
 //! Disagreements are keyed by class. A disagreement is attributed to a documented deviation K (`C12:deviation:K`)
@@ -36,7 +38,7 @@ const M: [i16; 13] = [0, 1, -1, 63, -63, 64, -64, 127, -127, 128, -128, 300, -30
 /// tolerance: one font unit, plus 2^-10 for implementations that keep "at least 16 fractional bits"
 const TOL: (i128, i128) = (1025, 1024);
 
-const FAMILIES: [&str; 7] = ["iup", "regions1", "regions2", "packing", "metrics", "invalid1", "extreme"];
+const FAMILIES: [&str; 8] = ["iup", "regions1", "regions2", "packing", "metrics", "invalid1", "extreme", "nested"];
 
 // ------------------------------------------------------------------------------------------------ coordinates
 
@@ -825,6 +827,107 @@ fn gen_extreme(idx: &[usize]) -> Option<Case> {
     Some(Case { font, kinds: vec![0], coords: coords.iter().map(|c| vec![*c]).collect(), hvar_inconsistent: false, extreme: true })
 }
 
+// ---- family nested: composites of composites, parent before and after its children in glyph order
+
+fn gen_nested(idx: &[usize]) -> Option<Case> {
+    let (order, depth3, hk, pat) = (idx[0], idx[1] == 1, idx[2], idx[3]);
+    // logical glyphs: S simple, D = [S], C = [D or S, S], P = [C] (+ S for pattern 1)
+    // glyph order 0: notdef, P, C, (D,) S  (every parent before its children); order 1: notdef, S, (D,) C, P
+    let names: Vec<char> = if order == 0 {
+        if depth3 { vec!['P', 'C', 'D', 'S'] } else { vec!['P', 'C', 'S'] }
+    } else if depth3 {
+        vec!['S', 'D', 'C', 'P']
+    } else {
+        vec!['S', 'C', 'P']
+    };
+    let gid = |n: char| -> u16 { 1 + names.iter().position(|x| *x == n).unwrap() as u16 };
+    let s_shape = Shape::Simple(vec![vec![pt(-50, 0, true), pt(100, -10, false), pt(120, 100, true), pt(0, 90, true)]]);
+    let mut glyphs = vec![empty_glyph(600)];
+    for n in &names {
+        let shape = match n {
+            'S' => s_shape.clone(),
+            'D' => Shape::Composite(vec![Comp { gid: gid('S'), dx: 7, dy: 9 }]),
+            'C' => Shape::Composite(vec![Comp { gid: if depth3 { gid('D') } else { gid('S') }, dx: -40, dy: 15 }, Comp { gid: gid('S'), dx: 300, dy: 200 }]),
+            _ => {
+                let mut c = vec![Comp { gid: gid('C'), dx: 30, dy: -20 }];
+                if pat == 1 {
+                    c.push(Comp { gid: gid('S'), dx: 60, dy: 40 });
+                }
+                Shape::Composite(c)
+            }
+        };
+        glyphs.push(GlyphDef { shape, advance: 3000 + 100 * glyphs.len() as u16, lsb: 0 });
+    }
+    let regions: Vec<RegionAxes> = vec![vec![(0, ONE, ONE)], vec![(-ONE, -ONE, 0)]];
+    let pp = |g: usize, k: usize| -> (i16, i16) { (if k == 0 { -20 - g as i16 } else { 11 }, if k == 0 { 150 + 3 * g as i16 } else { -90 + g as i16 }) };
+    let mut gvar: Vec<Option<GlyphVar>> = vec![None];
+    for g in 1..glyphs.len() {
+        let n = glyphs[g].shape.num_points();
+        let simple = matches!(glyphs[g].shape, Shape::Simple(_));
+        let mut tuples = Vec::new();
+        for k in 0..2 {
+            // the simple glyph's leftmost point stays leftmost (|delta| <= 30); component offsets move by up to 127
+            let mut d: Vec<(i16, i16)> = (0..n)
+                .map(|j| {
+                    if simple {
+                        ((((g * 7 + k * 13 + j * 5 + pat * 3) % 61) as i16) - 30, (((g * 3 + k * 17 + j * 11 + pat) % 61) as i16) - 30)
+                    } else {
+                        (M[(g + 2 * j + 5 * k + pat + 3) % 11], M[(3 * g + j + 7 * k + 1) % 11])
+                    }
+                })
+                .collect();
+            let (p1, p2) = pp(g, k);
+            d.extend([(p1, 0), (p2, 0), (0, 5), (0, -6)]);
+            let mut t = tuple(vec![if k == 0 { ONE } else { -ONE }], None, PointSel::All, d);
+            t.embed_peak = (g + k) % 2 == 0;
+            tuples.push(t);
+        }
+        gvar.push(Some(GlyphVar { tuples, shared_points: None, shared_pt_pack: PtPack::default() }));
+    }
+    let mut font = base_font(vec![axis(0, 0)], glyphs, gvar);
+    // lsb of the default master = xMin (pp1 = 0)
+    for g in 1..font.glyphs.len() {
+        font.glyphs[g].lsb = default_xmin(&font, g).unwrap_or(0) as i16;
+    }
+    if hk > 0 {
+        let ng = font.glyphs.len();
+        let peaks: [i16; 2] = [ONE, -ONE];
+        let adv_row = |g: usize| -> Vec<i32> { (0..2).map(|k| if g == 0 { 0 } else { (pp(g, k).1 - pp(g, k).0) as i32 }).collect() };
+        // lsb deltas consistent with the outlines: (xMin at the peak - default xMin) - pp1 delta; exact because every
+        // leftmost point / component stays the leftmost one
+        let lsb_rows: Vec<Vec<i32>> = {
+            let pr = Prepared::new(&font, EvalOpts::default());
+            (0..ng)
+                .map(|g| {
+                    (0..2)
+                        .map(|k| match (pr.instanced_xmin(g, &[peaks[k]]), default_xmin(&font, g)) {
+                            (Some(x), Some(d)) => {
+                                assert!(x.is_int(), "machinery: xMin at a peak is an integer");
+                                (x.n as i64 - d) as i32 - pp(g, k).0 as i32
+                            }
+                            _ => 0,
+                        })
+                        .collect()
+                })
+                .collect()
+        };
+        let mut rows: Vec<Vec<i32>> = (0..ng).map(adv_row).collect();
+        let with_lsb = hk == 2;
+        if with_lsb {
+            rows.extend(lsb_rows);
+        }
+        font.hvar = Some(Hvar {
+            ivs: Ivs { regions: regions.clone(), subtables: vec![IvData { region_idx: vec![0, 1], rows, word_count: 2, long_words: false }], regions_last: false },
+            adv: if with_lsb { Some(IndexMap { entries: (0..ng).map(|g| (0, g as u16)).collect(), inner_bits: 8, entry_size: 2, format: 0 }) } else { None },
+            lsb: if with_lsb { Some(IndexMap { entries: (0..ng).map(|g| (0, (ng + g) as u16)).collect(), inner_bits: 8, entry_size: 2, format: 0 }) } else { None },
+            rsb: None,
+        });
+    }
+    let axes: Vec<(i16, i16, i16)> = regions.iter().map(|r| r[0]).collect();
+    let coords = landmarks(&axes).into_iter().map(|c| vec![c]).collect();
+    Some(Case { font, kinds: vec![0], coords, hvar_inconsistent: false, extreme: false })
+}
+
 // ---- dispatch
 
 fn gen(family: &str, idx: &[usize]) -> Option<Case> {
@@ -836,6 +939,7 @@ fn gen(family: &str, idx: &[usize]) -> Option<Case> {
         "metrics" => gen_metrics(idx),
         "invalid1" => gen_invalid1(idx),
         "extreme" => gen_extreme(idx),
+        "nested" => gen_nested(idx),
         _ => None,
     }
 }
@@ -849,6 +953,7 @@ fn dims(family: &str, thorough: bool) -> Vec<usize> {
         "metrics" => vec![8, 4, 3, 2, 3],
         "invalid1" => vec![INVALID_SETS, 6],
         "extreme" => vec![4],
+        "nested" => vec![2, 2, 3, 2],
         _ => vec![],
     }
 }
@@ -1026,6 +1131,24 @@ fn compare(s: &Subject<'_>, prepared: &Prepared<'_>, o: &Observed, at_default: b
         } else if at_default && e.applicable == 0 {
             if let Some(d) = glyph_diff(shape, &e, &sf.glyphs[g], true) {
                 bad.push(("C12:default-instance-differs-from-default-master".into(), json!({"glyph": g, "difference": d})));
+            }
+        }
+        // glyph header bounding box: must describe the (flattened) instanced outline
+        let demand_bbox = match shape {
+            Shape::Composite(_) => true,
+            Shape::Simple(_) => e.moved && e.applicable > 0,
+            _ => false,
+        };
+        let header = match &sf.glyphs[g] {
+            OutGlyph::Simple { bbox, .. } | OutGlyph::Composite { bbox, .. } => Some(*bbox),
+            OutGlyph::Empty => None,
+        };
+        if let (true, Some(hd), Some(mb)) = (demand_bbox, header, prepared.instanced_bbox(g, nc)) {
+            let ob = static_bbox(sf, g, 0);
+            let ok = (0..4).all(|k| mb[k].within(hd[k] as i64, TOL.0, TOL.1) || ob.map_or(false, |o| (o[k] - hd[k] as i64).abs() <= 1));
+            if !ok {
+                let key = if matches!(shape, Shape::Composite(_)) { "C12:composite:bounding-box-mismatch" } else { "C12:simple:bounding-box-mismatch" };
+                bad.push((key.into(), json!({"glyph": g, "normalised": nc, "header_bbox": hd, "model_bbox": mb.iter().map(|v| v.to_f64()).collect::<Vec<_>>(), "bbox_of_output_outline": ob})));
             }
         }
         // advance width
@@ -1468,7 +1591,8 @@ pub fn run(ctx: &Ctx) {
          regions1/regions2 = set of 1..3 regions on 1 or 2 axes x encoding profile (embedded/shared peaks, private/shared/all point numbers) x axis kind x avar; \
          packing = 300-point glyph x delta fill x packed delta run form x packed point number form; metrics = HVAR kind x MVAR kind x phantom deltas x \
          numberOfHMetrics x region set; invalid1 = a region the scalar algorithm declares invalid, alone or with a valid one, x encoding profile; \
-         extreme = 4 fonts whose advance widths leave the int16 range) x (user coordinate: every region start/peak/end +-1 unit, midpoints, thirds, 0, +-1, beyond the axis range; thorough: \
+         extreme = 4 fonts whose advance widths leave the int16 range; nested = glyph order x nesting depth 2/3 x HVAR none/advance/advance+lsb x \
+         component pattern) x (user coordinate: every region start/peak/end +-1 unit, midpoints, thirds, 0, +-1, beyond the axis range; thorough: \
          all 32769 normalised values for 1-axis fonts); non-trivial = some region has a non-zero scalar and a non-zero delta for some glyph, or an MVAR delta \
          is non-zero; distinct by (family, index vector, user tuple)",
     );
@@ -1477,6 +1601,7 @@ pub fn run(ctx: &Ctx) {
     ctx.assume("left side bearing of a glyph with contours = xMin - pp1.x; xMin may be taken from the exact model or from the rounded output outline");
     ctx.assume("a glyph without contours has no xMin: lsb 0 (hmtx recommendation) and 0 - pp1.x are both accepted");
     ctx.assume("when HVAR disagrees with the gvar phantom point deltas (font not self-consistent) either source is accepted for the advance (HarfBuzz uses HVAR, fontTools the phantom points)");
+    ctx.assume("the glyf header bounding box is the box of all points of the (flattened) outline, on- and off-curve ('coordinate data'); it is demanded for composites and for simple glyphs whose points moved, against the exact model or the rounded output outline, each value within one unit");
     ctx.assume("STAT is not a variation table (static fonts carry it); fvar, avar, gvar, cvar, HVAR, MVAR, VVAR must be absent from the output");
     ctx.assume("packed deltas are encoded with runs that do not span the boundary between the x and y arrays (FreeType and HarfBuzz decode the two arrays separately)");
     ctx.assume("model fonts: axis tags TSTA/TSTB (no wght/wdth/slnt side effects on OS/2), axes -1..0..1, -16384..0..16384 and 0..0..1 so that user values hit normalised grid values exactly");
